@@ -129,6 +129,16 @@ class Ctx:
 
         results = xh.run_jobs(alljobs, self.nproc, progress)
         main = []
+        self._retry = []
+        self._collect(results, main)
+        rounds = 0
+        while self._retry and rounds < 4:
+            rounds += 1
+            again, self._retry = self._retry, []
+            self._collect(xh.run_jobs(again, self.nproc), main)
+        return main
+
+    def _collect(self, results, main):
         for r in results:
             j = r.job
             if j.witness:
@@ -151,7 +161,6 @@ class Ctx:
                 self.harness_error(j.ident(), r.detail)
             else:
                 self._triage(r)
-        return main
 
     def _triage(self, r):
         j = r.job
@@ -168,7 +177,13 @@ class Ctx:
         if verdict.get("reproduced"):
             sig = (real or {}).get("sig") or f"{j.module}:{j.func}:{j.meta.get('sigtag', j.tag)}"
             detail = (real or {}).get("detail") or har.get("raised") or har.get("returned") or ""
-            self.violation(sig, what + " :: " + str(detail)[:300], {"job": {"module": j.module, "func": j.func, "param": j.param, "tag": j.tag}, "args": r.args, "replay": rep}, r.wall)
+            new = self.violation(sig, what + " :: " + str(detail)[:300], {"job": {"module": j.module, "func": j.func, "param": j.param, "tag": j.tag}, "args": r.args, "replay": rep}, r.wall)
+            if not new and j.meta.get("tolerant") and isinstance(j.param, dict) and sig not in j.param.get("tolerate", []) and len(j.param.get("tolerate", [])) < 4:
+                # known finding: assume exactly that class away and explore the rest of this condition's space
+                p2 = dict(j.param)
+                p2["tolerate"] = list(j.param.get("tolerate", [])) + [sig]
+                j2 = xh.Job(j.module, j.func, p2, j.cond_timeout, j.path_timeout, False, j.tag + " (tolerating " + sig + ")", dict(j.meta))
+                self._retry.append(j2)
         elif real is not None and real.get("contract_only"):
             # the counterexample lives only at the stub's contract level and no real input realises it
             self.notes.append(f"contract-level only (not reported): {what[:300]}")
